@@ -108,7 +108,7 @@ def specFile (cfg : FmtCfg) (buffered : Bool) (recs : List Rec) : Str :=
     (`Variant.fixed` needs only that the record itself can be rendered) -/
 def RecOK (v : Variant) (r : Rec) : Prop :=
   r.wf ∧ (v.portDefault = true ∨ (r.host.isSome = true → r.port.isSome = true)) ∧
-  (v.lazyAware = true ∨ (isRead r = true → r.args = []))
+  (v.lazyAware = true ∨ (isRead r = true → r.args = [])) ∧ v.asciiStream = false
 
 /-! atoms: the flat sequence of things a record sequence says, used to state that coalescing loses
     and reorders nothing -/
@@ -227,15 +227,16 @@ theorem format_spec (v : Variant) (cfg : FmtCfg) (id : Nat) (r : Rec) (hwf : r.w
   exact formatMessage_spec v cfg id r _ hp
 
 theorem baseEmit_ok (v : Variant) (cfg : FmtCfg) (h : HSt) (r : Rec) (hwf : r.wf)
-    (hp : v.portDefault = true ∨ (r.host.isSome = true → r.port.isSome = true)) :
+    (hp : v.portDefault = true ∨ (r.host.isSome = true → r.port.isSome = true)) (hasc : v.asciiStream = false) :
     baseEmit v cfg h r =
       { h with nextId := h.nextId + 1, out := h.out ++ [.line (specFormat cfg h.nextId r (message r))] } := by
   unfold baseEmit
   rw [format_spec v cfg _ r hwf hp]
+  simp [hasc]
 
 theorem emitBuffered_ok (v : Variant) (cfg : FmtCfg) (h : HSt) (b : Rec) (hb : h.buf = some b)
     (hargs : v.lazyAware = true ∨ b.args = [])
-    (hp : v.portDefault = true ∨ (b.host.isSome = true → b.port.isSome = true)) :
+    (hp : v.portDefault = true ∨ (b.host.isSome = true → b.port.isSome = true)) (hasc : v.asciiStream = false) :
     emitBuffered v cfg h =
       { buf := none, msgBuf := [], nextId := h.nextId + 1,
         out := h.out ++ [.line (specFormat cfg h.nextId b (bufferedHead ++ reprBytes h.msgBuf))] } := by
@@ -246,14 +247,14 @@ theorem emitBuffered_ok (v : Variant) (cfg : FmtCfg) (h : HSt) (b : Rec) (hb : h
   simp only [hargs']
   have hwf : Rec.wf { b with msg := bufferedHead ++ reprBytes h.msgBuf, args := [] } :=
     ⟨bufferedHead ++ reprBytes h.msgBuf, by simp [getMessage]⟩
-  rw [baseEmit_ok v cfg h _ hwf hp]
+  rw [baseEmit_ok v cfg h _ hwf hp hasc]
   have hm : message { b with msg := bufferedHead ++ reprBytes h.msgBuf, args := [] }
       = bufferedHead ++ reprBytes h.msgBuf := by simp [message, getMessage]
   rw [hm, specFormat_congr]
 
 theorem payload_ok (v : Variant) (r : Rec) (hok : RecOK v r) (hr : isRead r = true) :
     payload v r = .ok (encode (payloadText r)) := by
-  obtain ⟨hwf, _, hl⟩ := hok
+  obtain ⟨hwf, _, hl, _⟩ := hok
   unfold payload payloadText
   have h6 : readPrefix.length = 6 := rfl
   cases hv : v.lazyAware
@@ -329,11 +330,11 @@ theorem runFrom_spec (v : Variant) (cfg : FmtCfg) (hflush : v.flushOnClose = tru
       rw [List.foldl_cons, h1, foldl_emit_run v cfg _ hrun _ r rfl]
       simp [encode_append, pending]
     have hargs : v.lazyAware = true ∨ r.args = [] := by
-      rcases hokr.2.2 with h2 | h2
+      rcases hokr.2.2.1 with h2 | h2
       · exact Or.inl h2
       · exact Or.inr (h2 hr)
     have hflushed := emitBuffered_ok v cfg
-      (pending h r (encode ((r :: rs.takeWhile isRead).flatMap payloadText))) r rfl hargs hokr.2.1
+      (pending h r (encode ((r :: rs.takeWhile isRead).flatMap payloadText))) r rfl hargs hokr.2.1 hokr.2.2.2
     have hfold : (r :: rs).foldl (emit v cfg) h =
         (rs.dropWhile isRead).foldl (emit v cfg) ((r :: rs.takeWhile isRead).foldl (emit v cfg) h) := by
       conv => lhs; rw [hsplit]
@@ -375,7 +376,7 @@ theorem runFrom_spec (v : Variant) (cfg : FmtCfg) (hflush : v.flushOnClose = tru
       unfold emit
       simp [hr', hb]
     unfold runFrom
-    rw [List.foldl_cons, h1, baseEmit_ok v cfg h r hokr.1 hokr.2.1]
+    rw [List.foldl_cons, h1, baseEmit_ok v cfg h r hokr.1 hokr.2.1 hokr.2.2.2]
     have := ih { h with nextId := h.nextId + 1,
                         out := h.out ++ [.line (specFormat cfg h.nextId r (message r))] } hb
       (fun x hx => hok x (by simp [hx]))
@@ -393,16 +394,18 @@ theorem foldl_baseEmit_spec (v : Variant) (cfg : FmtCfg) (recs : List Rec) :
   | cons r rs ih =>
     intro h hok
     have hokr := hok r (by simp)
-    rw [List.foldl_cons, baseEmit_ok v cfg h r hokr.1 hokr.2.1, ih _ (fun x hx => hok x (by simp [hx]))]
+    rw [List.foldl_cons, baseEmit_ok v cfg h r hokr.1 hokr.2.1 hokr.2.2.2, ih _ (fun x hx => hok x (by simp [hx]))]
     simp [specLines, Entry.text]
 
 /-! the flush-on-close flag matters only in `close` -/
-theorem emit_flush_irrelevant (a f f' c : Bool) (cfg : FmtCfg) :
-    emit ⟨a, f, c⟩ cfg = emit ⟨a, f', c⟩ cfg := rfl
+theorem emit_flush_irrelevant (a f f' c e : Bool) (cfg : FmtCfg) :
+    emit ⟨a, f, c, e⟩ cfg = emit ⟨a, f', c, e⟩ cfg := rfl
 
 theorem baseEmit_buf (v : Variant) (cfg : FmtCfg) (h : HSt) (r : Rec) : (baseEmit v cfg h r).buf = h.buf := by
   unfold baseEmit
-  split <;> rfl
+  split
+  · split <;> rfl
+  · rfl
 
 theorem emit_plain_buf (v : Variant) (cfg : FmtCfg) (h : HSt) (r : Rec) (hr : isRead r = false) :
     (emit v cfg h r).buf = none := by
@@ -413,13 +416,13 @@ theorem emit_plain_buf (v : Variant) (cfg : FmtCfg) (h : HSt) (r : Rec) (hr : is
   | some b => simp [emitBuffered, hb]
 
 /-- if the last record is not a read record nothing is pending at close: the two `close` agree -/
-theorem runHandler_flush_irrelevant (a c : Bool) (cfg : FmtCfg) (pre : List Rec) (p : Rec)
+theorem runHandler_flush_irrelevant (a c e : Bool) (cfg : FmtCfg) (pre : List Rec) (p : Rec)
     (hp : isRead p = false) :
-    runHandler ⟨a, false, c⟩ cfg true (pre ++ [p]) = runHandler ⟨a, true, c⟩ cfg true (pre ++ [p]) := by
+    runHandler ⟨a, false, c, e⟩ cfg true (pre ++ [p]) = runHandler ⟨a, true, c, e⟩ cfg true (pre ++ [p]) := by
   unfold runHandler
   simp only [↓reduceIte, List.foldl_append, List.foldl_cons, List.foldl_nil]
-  rw [emit_flush_irrelevant a false true c]
-  have hb := emit_plain_buf ⟨a, true, c⟩ cfg (pre.foldl (emit ⟨a, true, c⟩ cfg) {}) p hp
+  rw [emit_flush_irrelevant a false true c e]
+  have hb := emit_plain_buf ⟨a, true, c, e⟩ cfg (pre.foldl (emit ⟨a, true, c, e⟩ cfg) {}) p hp
   simp [close, hb]
 
 /-! ## Coalescing loses and reorders nothing -/
@@ -607,5 +610,108 @@ theorem writeRec_wf (base : Rec) (i ri : Str) (red : Bool) : (writeRec base i ri
   cases red
   · exact ⟨_, by simp [getMessage, writeRec, chanWriteTemplate, pyFormat, Except.map]; rfl⟩
   · exact ⟨_, by simp [getMessage, writeRec]; rfl⟩
+
+/-! ## The file before close(): the fold invariant -/
+
+/-- state of the handler after `body ++ run`, where `run` is the trailing run of read records and
+    `body` is empty or ends with a non-read record -/
+theorem foldl_emit_body_run (v : Variant) (cfg : FmtCfg) (hflush : v.flushOnClose = true) (body run : List Rec)
+    (hbody : body = [] ∨ ∃ pre p, body = pre ++ [p] ∧ isRead p = false)
+    (hrun : ∀ r ∈ run, isRead r = true) (hok : ∀ r ∈ body ++ run, RecOK v r) :
+    ((body ++ run).foldl (emit v cfg) {}).out = (specLines cfg firstMessageId (coalesce body)).map Ev.line ∧
+    ((body ++ run).foldl (emit v cfg) {}).buf = run.head? ∧
+    (run ≠ [] → ((body ++ run).foldl (emit v cfg) {}).msgBuf = encode (run.flatMap payloadText)) := by
+  have hbuf : (body.foldl (emit v cfg) {}).buf = none := by
+    rcases hbody with rfl | ⟨pre, p, rfl, hp⟩
+    · rfl
+    · rw [List.foldl_append]
+      exact emit_plain_buf v cfg _ p hp
+  have hout : (body.foldl (emit v cfg) {}).out = (specLines cfg firstMessageId (coalesce body)).map Ev.line := by
+    have := runFrom_spec v cfg hflush body {} rfl (fun r hr => hok r (by simp [hr]))
+    simpa [runFrom, close, hbuf] using this
+  rw [List.foldl_append]
+  generalize body.foldl (emit v cfg) {} = sb at hbuf hout ⊢
+  cases run with
+  | nil => exact ⟨hout, hbuf, fun h => absurd rfl h⟩
+  | cons r run' =>
+    have hr := hrun r (by simp)
+    have hokr := hok r (by simp)
+    have h1 : emit v cfg sb r = { sb with buf := some r, msgBuf := encode (payloadText r) } := by
+      unfold emit
+      simp [hr, payload_ok v r hokr hr, hbuf]
+    rw [List.foldl_cons, h1, foldl_emit_run v cfg run'
+      (fun x hx => ⟨hrun x (by simp [hx]), hok x (by simp [hx])⟩) _ r rfl]
+    refine ⟨hout, rfl, fun _ => ?_⟩
+    simp [encode_append]
+
+/-! ## Attribution: under which target a payload character is shown -/
+
+def recAtomsT (r : Rec) : List (Str × (Str ⊕ Char)) := (recAtoms r).map fun a => (specTarget r, a)
+
+def entryAtomsT (e : Entry) : List (Str × (Str ⊕ Char)) := (entryAtoms e).map fun a => (specTarget e.src, a)
+
+theorem flatMap_recAtomsT_reads (t : Str) (l : List Rec) (h : ∀ x ∈ l, isRead x = true ∧ specTarget x = t) :
+    l.flatMap recAtomsT = (l.flatMap payloadText).map fun c => (t, Sum.inr c) := by
+  induction l with
+  | nil => rfl
+  | cons a l ih =>
+    have ha := h a (by simp)
+    simp [List.flatMap_cons, recAtomsT, recAtoms, ha.1, ha.2, ih (fun x hx => h x (by simp [hx]))]
+
+theorem coalesce_atomsT (recs : List Rec)
+    (hsame : ∀ a ∈ recs, ∀ b ∈ recs, isRead a = true → isRead b = true → specTarget a = specTarget b) :
+    (coalesce recs).flatMap entryAtomsT = recs.flatMap recAtomsT := by
+  fun_induction coalesce recs with
+  | case1 => rfl
+  | case2 r rs hr ih =>
+    have hsplit : rs.flatMap recAtomsT
+        = (rs.takeWhile isRead).flatMap recAtomsT ++ (rs.dropWhile isRead).flatMap recAtomsT := by
+      rw [← List.flatMap_append, List.takeWhile_append_dropWhile]
+    have hrun := flatMap_recAtomsT_reads (specTarget r) (rs.takeWhile isRead) (fun x hx =>
+      ⟨mem_takeWhile_true hx, hsame x (by simp [(List.takeWhile_sublist isRead).mem hx]) r (by simp)
+        (mem_takeWhile_true hx) hr⟩)
+    have ih' := ih (fun a ha b hb => hsame a (by simp [(List.dropWhile_sublist isRead).mem ha]) b
+      (by simp [(List.dropWhile_sublist isRead).mem hb]))
+    simp [List.flatMap_cons, ih', hsplit, hrun, entryAtomsT, entryAtoms, recAtomsT, recAtoms, hr]
+  | case3 r rs hr ih =>
+    have hr' : isRead r = false := by simpa using hr
+    have ih' := ih (fun a ha b hb => hsame a (by simp [ha]) b (by simp [hb]))
+    rw [List.flatMap_cons, ih', List.flatMap_cons]
+    simp [entryAtomsT, entryAtoms, recAtomsT, recAtoms, hr']
+
+/-! ## Ill-formed records through the plain handler -/
+
+def Rec.wfb (r : Rec) : Bool :=
+  match getMessage r with
+  | .ok _ => true
+  | .error _ => false
+
+theorem wf_iff_wfb (r : Rec) : r.wf ↔ r.wfb = true := by
+  unfold Rec.wf Rec.wfb
+  cases getMessage r <;> simp
+
+theorem errorCount_append (a b : List Ev) : errorCount (a ++ b) = errorCount a + errorCount b := by
+  simp [errorCount, List.filter_append]
+
+theorem errorCount_foldl_baseEmit (cfg : FmtCfg) (recs : List Rec) :
+    ∀ h : HSt, errorCount (recs.foldl (baseEmit Variant.fixed cfg) h).out
+      = errorCount h.out + (recs.filter fun r => !r.wfb).length := by
+  induction recs with
+  | nil => intro h; simp
+  | cons r rs ih =>
+    intro h
+    rw [List.foldl_cons, ih]
+    cases hw : r.wfb
+    · have hf : ∃ e, format Variant.fixed cfg h.nextId r = .error e := by
+        unfold format Rec.wfb at *
+        cases hg : getMessage r with
+        | ok m => simp [hg] at hw
+        | error e => exact ⟨e, rfl⟩
+      obtain ⟨e, he⟩ := hf
+      simp [baseEmit, he, errorCount, hw]
+      omega
+    · have hwf : r.wf := (wf_iff_wfb r).mpr hw
+      rw [baseEmit_ok Variant.fixed cfg h r hwf (Or.inl rfl) rfl]
+      simp [errorCount, hw]
 
 end Scrapli.Log
